@@ -263,6 +263,7 @@ async def _run_async_execute(
 
     for attempt in range(1, policy.max_attempts + 1):
         attempt_state = AttemptState()
+        in_operation = False
 
         try:
             state.check_abort(attempt - 1)
@@ -270,10 +271,12 @@ async def _run_async_execute(
             attempt_state.started = True
             attempts = attempt
 
+            in_operation = True
             if attempt_timeout_s is None:
                 result = await func()
             else:
                 result = await asyncio.wait_for(func(), timeout=attempt_timeout_s)
+            in_operation = False
 
             # Success path: check if result needs classification
             needs_retry, classification = should_classify_result(policy, result)
@@ -344,6 +347,10 @@ async def _run_async_execute(
         except RetryExhaustedError:
             raise
         except Exception as exc:
+            if not in_operation:
+                # Raised by a caller-supplied callback (hook, strategy, sleeper, result
+                # classifier) outside the operation: not an attempt failure to retry.
+                raise
             attempt_state.cause = "exception"
             try:
                 state.check_abort(attempt)
